@@ -198,6 +198,9 @@ func (s *icmpDriver) handleProbeLayers(parser *packets.FrameParser) (*common.Pro
 				IsDest: false,
 			}, nil
 		case layers.ICMPv4TypeEchoReply:
+			if ipPair.SrcAddr.Compare(s.params.Target) != 0 {
+				return nil, common.ErrPacketDidNotMatchTraceroute
+			}
 			if parser.ICMP4.Id != s.echoID {
 				return nil, &common.BadPacketError{Err: fmt.Errorf("mismatched echo ID")}
 			}
@@ -259,6 +262,9 @@ func (s *icmpDriver) handleProbeLayers(parser *packets.FrameParser) (*common.Pro
 			}
 			id := binary.BigEndian.Uint16(payload[0:2])
 			seq := binary.BigEndian.Uint16(payload[2:4])
+			if ipPair.SrcAddr.Compare(s.params.Target) != 0 {
+				return nil, common.ErrPacketDidNotMatchTraceroute
+			}
 			if id != s.echoID {
 				return nil, &common.BadPacketError{Err: fmt.Errorf("mismatched echo ID")}
 			}
